@@ -86,6 +86,12 @@ func verifDetFixture(fx string, n int, plus bool) ExtendedResources {
 			if i%2 == 1 {
 				up.Subselector = map[string]string{"tier": "t" + strconv.Itoa(i), "app": "a", "zone": "z", "rel": "r", "v": "1"}
 			}
+			if i%3 == 0 && len(up.Subselector) == 0 {
+				// a backup Service with several endpoints (nothing enforces ExternalName): their order is the controller's map order
+				bp := uint16(80)
+				up.Backup, up.BackupPort = "bak"+un, &bp
+				ex.Endpoints[GenerateEndpointsKey("d", up.Backup, nil, bp)] = verifDetEndpoints(n)
+			}
 			ex.VirtualServer.Spec.Upstreams = append(ex.VirtualServer.Spec.Upstreams, up)
 			ex.Endpoints[GenerateEndpointsKey("d", up.Service, up.Subselector, up.Port)] = verifDetEndpoints(n)
 			ex.VirtualServer.Spec.Routes = append(ex.VirtualServer.Spec.Routes, conf_v1.Route{Path: "/" + un, Action: &conf_v1.Action{Proxy: &conf_v1.ActionProxy{Upstream: un,
@@ -143,7 +149,13 @@ func verifDetFixture(fx string, n int, plus bool) ExtendedResources {
 		ex.Endpoints = map[string][]string{}
 		for i := 0; i < n; i++ {
 			un := "u" + strconv.Itoa((i*5)%n)
-			ex.TransportServer.Spec.Upstreams = append(ex.TransportServer.Spec.Upstreams, conf_v1.TransportServerUpstream{Name: un, Service: "svc" + un, Port: 80})
+			tu := conf_v1.TransportServerUpstream{Name: un, Service: "svc" + un, Port: 80}
+			if i%3 == 0 {
+				bp := uint16(80)
+				tu.Backup, tu.BackupPort = "bak"+un, &bp
+				ex.Endpoints["d/bak"+un+":80"] = verifDetEndpoints(n)
+			}
+			ex.TransportServer.Spec.Upstreams = append(ex.TransportServer.Spec.Upstreams, tu)
 			ex.Endpoints["d/svc"+un+":80"] = verifDetEndpoints(n)
 		}
 		ex.TransportServer.Spec.Action = &conf_v1.TransportServerAction{Pass: "u0"}
